@@ -349,4 +349,5 @@ func c18Schedule(K int, withLimit bool) {
 
 func VerifC18_schedule_quick()    { c18Schedule(6, false) }
 func VerifC18_schedule_thorough() { c18Schedule(8, false) }
-func VerifC18_schedule_limit()    { c18Schedule(6, true) }
+func VerifC18_schedule_limit_quick()    { c18Schedule(5, true) }
+func VerifC18_schedule_limit_thorough() { c18Schedule(6, true) }
